@@ -79,7 +79,8 @@ def summaries(nmax):
             (r'<dyn Process as Process>::(process|complete|start)$', proto_next()),
             (r'Context::with_result$', s_derive('with_result', 2)), (r'Context::with_inupt$', s_derive('with_inupt', 1)),
             (r'Context::with_variables$', s_derive('with_variables', 1)), (r'Context::with_definitions$', s_derive('with_definitions', 1)),
-            (r'Context::key$', s_key), (r'HashSet::<.*>::insert$', s_hs_insert), (r'HashSet::<.*>::clear$', lambda ex, st, f, a, t: [(st, UNIT)]),
+            (r'Context::key$', s_key), (r'Context::input$', lambda ex, st, f, a, t: [(st, slot(st, named(st, 'input(' + origin(st, a[0]) + ')', 'Rc<JsonValue>')))]),
+            (r'<JsonValue as Clone>::clone$|<Rc<JsonValue> as Clone>::clone$', s_clone_shared), (r'HashSet::<.*>::insert$', s_hs_insert), (r'HashSet::<.*>::clear$', lambda ex, st, f, a, t: [(st, UNIT)]),
             (r'<Vec<JsonValue> as IntoIterator>::into_iter$', s_iter_val), (r'<std::vec::IntoIter<JsonValue> as Iterator>::next$', s_iter_next),
             (r'Titles::with_title$', s_derive('with_title', 1))]
 
@@ -260,8 +261,6 @@ def replay_stages(ctx, cands):
     from . import refpipe
     from .scen_go import ROWS
     for c in cands:
-        if c.unmodelled:
-            c.status = 'inconclusive'; continue
         stage = c.model.get('stage')
         if stage not in ARGV:
             c.status = 'unit'; continue
